@@ -33,7 +33,30 @@ func extractItem() {
 	const dfile = "pkg/models/item_dedupe.go"
 
 	hw := fn(file, "Item.HasWork")
-	s.strs("noWorkStatuses", statusNamesIn(hw, "i.status", "!="), hw != nil)
+	nw := statusNamesIn(hw, "i.status", "!=")
+	if len(nw) == 0 && hw != nil && hw.Body != nil && len(hw.Body.List) == 1 {
+		// the same test as a switch: `switch i.status { case A, B, C: return false; default: return true }`
+		if sw, ok := hw.Body.List[0].(*ast.SwitchStmt); ok && nospace(sw.Tag) == "i.status" && len(sw.Body.List) == 2 {
+			var names []string
+			okShape := true
+			for _, c := range sw.Body.List {
+				cc := c.(*ast.CaseClause)
+				body := nospace(&ast.BlockStmt{List: cc.Body})
+				if cc.List == nil {
+					okShape = okShape && body == "{returntrue}"
+				} else {
+					okShape = okShape && body == "{returnfalse}"
+					for _, e := range cc.List {
+						names = append(names, strings.TrimPrefix(nospace(e), "Item"))
+					}
+				}
+			}
+			if okShape {
+				nw = names
+			}
+		}
+	}
+	s.strs("noWorkStatuses", nw, hw != nil)
 
 	cc := fn(file, "Item.CheckConsistency")
 	fp := ifWithMsg(cc, "parent is not ItemGotChildren or ItemGotRedirected")
